@@ -6,10 +6,13 @@ package main
 
 import (
 	"encoding/binary"
+	"encoding/hex"
 	"fmt"
 	"math/rand"
 	"sort"
 	"strings"
+	"sync"
+	"sync/atomic"
 	"time"
 
 	"github.com/Shopify/sarama"
@@ -76,6 +79,9 @@ func balCases(tier string) []balCase {
 	for i := 0; i < nc; i++ {
 		cs = append(cs, balCase{kind: "chain", n: 10})
 	}
+	for i := range directedGroups {
+		cs = append(cs, balCase{kind: "directed", strat: directedGroups[i].strat, subIdx: i, n: 40})
+	}
 	// sticky, one step from a settled plan: 3 members x 3 topics, every mixed
 	// subscription pattern, then every single change (one member's subscription,
 	// a fourth member joining with any subscription, any member leaving).
@@ -122,6 +128,7 @@ type balInput struct {
 	members map[string]sarama.ConsumerGroupMemberMetadata
 	topics  map[string][]int32
 	prior   string // class of prior state for the shape signature
+	cycled  bool   // the Plan call on this input was cut by the sticky assignor's repetition guard (hook bal.cycle)
 }
 
 func (in *balInput) describe() map[string]interface{} {
@@ -211,6 +218,31 @@ func planWithWatchdog(strat sarama.BalanceStrategy, members map[string]sarama.Co
 
 var errHang = fmt.Errorf("hang")
 
+// balCycles counts bal.cycle hook events (sticky reassignment loop cut by its
+// repetition guard); the balance engine plans one input at a time.
+var balCycles int64
+var balHookOnce sync.Once
+
+func installBalHook() {
+	balHookOnce.Do(func() {
+		sarama.VerifHook = func(point string, args ...interface{}) {
+			if point == "bal.cycle" {
+				atomic.AddInt64(&balCycles, 1)
+			}
+		}
+	})
+}
+
+// cycAttr marks a signature when one of the plans it judges came out of a cut loop.
+func cycAttr(attr string, ins ...*balInput) string {
+	for _, in := range ins {
+		if in != nil && in.cycled {
+			return attr + ",after-cycle-guard"
+		}
+	}
+	return attr
+}
+
 func (r *balRun) plan(in *balInput) (sarama.BalanceStrategyPlan, bool) {
 	r.evals++
 	strat := strategyByName(in.strat)
@@ -223,7 +255,13 @@ func (r *balRun) plan(in *balInput) (sarama.BalanceStrategyPlan, bool) {
 	for k, v := range in.topics {
 		topics[k] = append([]int32(nil), v...)
 	}
+	installBalHook()
+	before := atomic.LoadInt64(&balCycles)
 	plan, err, hung, pan := planWithWatchdog(strat, members, topics)
+	if !hung && atomic.LoadInt64(&balCycles) != before {
+		in.cycled = true
+		r.obs["plans_cut_by_cycle_guard"]++
+	}
 	if hung {
 		size := 0
 		for _, ps := range in.topics {
@@ -401,7 +439,7 @@ func (r *balRun) fairness(in *balInput, plan sarama.BalanceStrategyPlan) {
 				if planCount(plan, a) >= planCount(plan, b)+2 {
 					for _, t := range mdb.Topics {
 						if len(plan[a][t]) > 0 {
-							r.addViol("sticky-unbalanced", "sticky", fmt.Sprintf("%s holds %d, %s holds %d, yet %s holds %v of topic %s which %s subscribes to", a, planCount(plan, a), b, planCount(plan, b), a, plan[a][t], t, b), in, plan)
+							r.addViol("sticky-unbalanced", cycAttr("sticky", in), fmt.Sprintf("%s holds %d, %s holds %d, yet %s holds %v of topic %s which %s subscribes to", a, planCount(plan, a), b, planCount(plan, b), a, plan[a][t], t, b), in, plan)
 						}
 					}
 				}
@@ -497,7 +535,7 @@ func (r *balRun) stickyFixedPoint(in *balInput, plan sarama.BalanceStrategyPlan,
 		return
 	}
 	if !samePlan(plan, p2) {
-		r.addViol("sticky-not-fixed-point", "sticky", fmt.Sprintf("re-planning with unchanged members/subscriptions/partitions and the previous plan as user data changed the plan: %v -> %v", plan, p2), in2, p2)
+		r.addViol("sticky-not-fixed-point", cycAttr("sticky", in, in2), fmt.Sprintf("re-planning with unchanged members/subscriptions/partitions and the previous plan as user data changed the plan: %v -> %v", plan, p2), in2, p2)
 	}
 }
 
@@ -576,6 +614,26 @@ func (e *balanceEngine) Run(prop, tier string, seed int64, idx int) proto.Rec {
 		}
 	case "step":
 		e.step(r, c, rng)
+	case "directed":
+		g := directedGroups[c.subIdx]
+		for i := 0; i < c.n; i++ {
+			in := &balInput{strat: g.strat, members: map[string]sarama.ConsumerGroupMemberMetadata{}, topics: map[string][]int32{}, prior: "directed-" + g.name}
+			for t, n := range g.topics {
+				in.topics[t] = seqParts(n)
+			}
+			for _, m := range g.members {
+				md := sarama.ConsumerGroupMemberMetadata{Topics: append([]string(nil), m.topics...)}
+				if m.userDataHex != "" {
+					md.UserData, _ = hex.DecodeString(m.userDataHex)
+				}
+				in.members[m.id] = md
+			}
+			plan, ok := r.plan(in)
+			if !ok {
+				break
+			}
+			r.check(in, plan)
+		}
 	}
 	rec := proto.Rec{ID: fmt.Sprintf("%s/%s/%d/%d:%s-%s-m%d-t%d", prop, tier, seed, idx, c.kind, c.strat, c.m, c.t),
 		Evals: r.evals, Viols: r.viols, Obs: r.obs, Sample: r.sample}
@@ -1118,7 +1176,7 @@ func (r *balRun) stickiness(prevIn *balInput, prev sarama.BalanceStrategyPlan, i
 	if change != "stale-gen" {
 		for k, ps := range moves {
 			if qs, ok := moves[mv{k.t, k.to, k.from}]; ok && k.from < k.to {
-				r.addViol("sticky-swap", "sticky", fmt.Sprintf("topic %s: partitions %v moved %s->%s while %v moved %s->%s in one re-plan (change=%s)", k.t, ps, k.from, k.to, qs, k.to, k.from, change), in, plan)
+				r.addViol("sticky-swap", cycAttr("sticky", prevIn, in), fmt.Sprintf("topic %s: partitions %v moved %s->%s while %v moved %s->%s in one re-plan (change=%s)", k.t, ps, k.from, k.to, qs, k.to, k.from, change), in, plan)
 			}
 		}
 	}
@@ -1138,19 +1196,19 @@ func (r *balRun) stickiness(prevIn *balInput, prev sarama.BalanceStrategyPlan, i
 	case "leave":
 		for tp, o := range po {
 			if _, still := in.members[o]; still && no[tp] != o {
-				r.addViol("sticky-moved-on-leave", "sticky", fmt.Sprintf("identical subscriptions, a member left, yet %s/%d moved from remaining member %s to %s", tp.t, tp.p, o, no[tp]), in, plan)
+				r.addViol("sticky-moved-on-leave", cycAttr("sticky", prevIn, in), fmt.Sprintf("identical subscriptions, a member left, yet %s/%d moved from remaining member %s to %s", tp.t, tp.p, o, no[tp]), in, plan)
 			}
 		}
 	case "join":
 		for tp, o := range po {
 			n := no[tp]
 			if _, still := in.members[o]; still && n != o && n != joined {
-				r.addViol("sticky-shuffled-on-join", "sticky", fmt.Sprintf("identical subscriptions, %s joined, yet %s/%d moved between old members %s -> %s", joined, tp.t, tp.p, o, n), in, plan)
+				r.addViol("sticky-shuffled-on-join", cycAttr("sticky", prevIn, in), fmt.Sprintf("identical subscriptions, %s joined, yet %s/%d moved between old members %s -> %s", joined, tp.t, tp.p, o, n), in, plan)
 			}
 		}
 	case "none":
 		if !samePlan(prev, plan) {
-			r.addViol("sticky-not-fixed-point", "sticky", "unchanged group re-planned differently inside a chain", in, plan)
+			r.addViol("sticky-not-fixed-point", cycAttr("sticky", prevIn, in), "unchanged group re-planned differently inside a chain", in, plan)
 		}
 	}
 }
